@@ -382,6 +382,8 @@ def analyze(case, impl):
                 # FlattenedKeys speaks in paths from the root of the tree the config is attached to
                 pre = R["path"] + "." if fp.get("p") and R["path"] else ""
                 want = sorted(pre + k for k in leaf_keys(fp))
+                if not (all_ids(fp) & dup) and fp["id"] not in dup and sorted(R["keys"]) == want and sorted(R.get("keys0", R["keys"])) != want:
+                    out.append(("C15", "step %d: FlattenedKeys() of r%d without a PathSep option = %s, with the default separator they are %s" % (si, j, sorted(R["keys0"])[:8], want[:8]), si))
                 if not (all_ids(fp) & dup) and fp["id"] not in dup and sorted(R["keys"]) != want:
                     out.append(("C15", "step %d: FlattenedKeys of r%d = %s, the non-nil primitive settings are %s" % (si, j, sorted(R["keys"])[:8], want[:8]), si))
         if kind == "diff" and "diff" in st and regs[r] is not None and regs[op["r2"]] is not None and pure(regs[r]["fp"]) and pure(regs[op["r2"]]["fp"]) \
